@@ -555,6 +555,26 @@ func (rw *rewriter) pre(c *astutil.Cursor) bool {
 
 func (rw *rewriter) preOS(c *astutil.Cursor) {
 	switch tn := c.Node().(type) {
+	case *ast.GoStmt:
+		// R13: a goroutine started by a file whose file-system calls are
+		// interposed is background work of the simulated process: simos
+		// decides when it runs (at once, only when waited for, or step by
+		// step with the foreground)
+		if rw.sched {
+			break
+		}
+		var fn ast.Expr
+		if lit, ok := tn.Call.Fun.(*ast.FuncLit); ok && len(tn.Call.Args) == 0 {
+			fn = lit
+		} else {
+			fn = &ast.FuncLit{
+				Type: &ast.FuncType{Params: &ast.FieldList{}},
+				Body: &ast.BlockStmt{List: []ast.Stmt{&ast.ExprStmt{X: tn.Call}}},
+			}
+		}
+		c.Replace(&ast.ExprStmt{X: call(rw.sos("Go"), fn)})
+		rw.stats["simos.Go"]++
+		return
 	case *ast.SelectorExpr:
 		if rw.pkgOf(tn.X) == "os" && osFuncs[tn.Sel.Name] {
 			if _, isFunc := rw.info.Uses[tn.Sel].(*types.Func); isFunc {
@@ -605,6 +625,20 @@ func (rw *rewriter) preOS(c *astutil.Cursor) {
 			sel.Sel = ast.NewIdent(sel.Sel.Name + "Size")
 			tn.Args = append(tn.Args, call(rw.sos("Knob"), &ast.BasicLit{Kind: token.STRING, Value: `"bufio"`}, &ast.BasicLit{Kind: token.INT, Value: "4096"}))
 			return
+		}
+		if sel.Sel.Name == "Wait" && len(tn.Args) == 0 && !rw.sched {
+			if sl := rw.info.Selections[sel]; sl != nil {
+				if fn, isFn := sl.Obj().(*types.Func); isFn && fn.FullName() == "(*sync.WaitGroup).Wait" && len(sl.Index()) == 1 {
+					recv := sel.X
+					if _, isPtr := rw.info.TypeOf(recv).(*types.Pointer); !isPtr {
+						recv = &ast.UnaryExpr{Op: token.AND, X: recv}
+					}
+					tn.Fun = rw.sos("WGWait")
+					tn.Args = []ast.Expr{recv}
+					rw.stats["simos.WGWait"]++
+					return
+				}
+			}
 		}
 		repl, ok := fileMethods[sel.Sel.Name]
 		if !ok {
